@@ -104,6 +104,9 @@ def run(t, budget=1.0):
         if not cresp.startswith("BUDGET"):
             # checked build (assertions -> handler) in the entry's first config
             outs.append((cfg, pc.call(entry, cfg, "checked %d %d %s" % (mi, which, hx))))
+            # unchecked release-like build: nothing masks an over-read, the guard page reports it
+            for nc in entry.status.get("nc_configs", [])[:1]:
+                outs.append((nc, pc.call(entry, nc, "checked %d %d %s" % (mi, which, hx))))
         for cname, resp in outs:
             res.count()
             head = resp.split(" ")[0]
@@ -119,7 +122,7 @@ def run(t, budget=1.0):
             elif head == "ASSERT":
                 sig = "checked-assert:wire-blockLength-below-compiled-block" if M.walk_short_block else "checked-assert:structure-ends-at-%s" % where
             elif head == "SEGV":
-                sig = "checked-overread:structure-ends-at-%s" % where
+                sig = "checked-overread:wire-blockLength-below-compiled-block" if M.walk_short_block else "checked-overread:structure-ends-at-%s" % where
             elif head == "BUDGET":
                 sig = "checked-unbounded-work:%s" % ("zero-length-flat-entries" if M.walk_zero_flat else where)
             else:
